@@ -376,6 +376,14 @@ class Engine:
             self.server_exc = (label, exc)
             return False
         if not ok:
+            bp, db = srv.bp, srv.db
+            if (bp is not None and bp.caught_up and bp.state is not None and bp.reorg_count is None and db is not None and db.state is not None
+                    and bp.state.height == self.world.height() and bp.state.tip == self.world.tip.hash
+                    and db.state.height < bp.state.height):
+                # the block processor says it has caught up with the daemon (and clients are served from the DB), but what it
+                # processed never reached the DB: every query answers for an older height
+                self.diffs.append(('state', label, {'db_height_behind_caught_up_block_processor': (db.state.height, bp.state.height)}))
+                return False
             self.inconclusive.append(f'no progress before {label}: bp={getattr(srv.bp.state, "height", None) if srv.bp else None} '
                                      f'db={srv.db.state.height if srv.db and srv.db.state else None} daemon={self.world.height()}')
             return False
